@@ -295,6 +295,15 @@ let codec_case (line : string) : string =
   match op with
   | "enc" -> (match encode (term_of_string cmp_owned rest) with
               | EOk b -> "ok " ^ hex_of_bytes b ^ " w=same" | EErr e -> "err " ^ eerr_str e)
+  | "encw" ->
+      String.concat " | " (List.map (fun item ->
+        match String.index_opt item ' ' with
+        | Some i ->
+            let limit = int_of_string (String.sub item 1 (i - 1)) in
+            (match encode (term_of_string cmp_owned (String.sub item (i+1) (String.length item - i - 1))) with
+             | EErr e -> "err " ^ eerr_str e
+             | EOk b -> if limit >= 0 && List.length b > limit then "werr" else "ok same")
+        | None -> failwith "encw") (Str.split (Str.regexp_string " | ") rest))
   | "rt" ->
       let tin = term_of_string cmp_owned rest in
       "in=" ^ term_str tin ^ " ; " ^
